@@ -1,7 +1,7 @@
 SPECIFICATION SimSpec
 CONSTANTS
     Focus = "general"
-    Cfgs <- AllCfgs
+    Cfgs <- FullCfgs
     Ctors <- SimCtors
     Layouts <- SimLayouts
     MaxOps = 30
